@@ -194,15 +194,15 @@ func respReleaseSite(c *cx, id string, f *eng.Fn, call *ast.CallExpr) {
 			var guard *ast.Ident
 			okAll := true
 			for _, e := range conj {
-				be, ok := e.(*ast.BinaryExpr)
-				if !ok || be.Op != token.NEQ || f.Norm(be.Y, nil) != "nil" {
+				gx, ok := nilCompare(f, e, token.NEQ)
+				if !ok {
 					okAll = false
 					break
 				}
-				if isR(be.X) {
+				if isR(gx) {
 					continue
 				}
-				idn, ok := ast.Unparen(be.X).(*ast.Ident)
+				idn, ok := ast.Unparen(gx).(*ast.Ident)
 				if !ok || guard != nil {
 					okAll = false
 					break
